@@ -279,7 +279,19 @@ func buildGadget(t *tokens) expr.Expr {
 	}
 }
 
-// Integer types are named u8,u16,u32,u64 / i8,i16,i32,i64. Values are decimal.
+// Integer types are named u8,u16,u32,u64 / i8,i16,i32,i64; nu8.. / ni8.. are DEFINED
+// types with those underlying types (like expr.Width or model.Addr). Values are decimal.
+
+type (
+	vNU8  uint8
+	vNU16 uint16
+	vNU32 uint32
+	vNU64 uint64
+	vNI8  int8
+	vNI16 int16
+	vNI32 int32
+	vNI64 int64
+)
 
 func opConstUint(t *tokens) string {
 	typ := t.next()
@@ -297,6 +309,14 @@ func opConstUint(t *tokens) string {
 		return fmtExpr(expr.NewConstUint(uint32(v), w))
 	case "u64":
 		return fmtExpr(expr.NewConstUint(uint64(v), w))
+	case "nu8":
+		return fmtExpr(expr.NewConstUint(vNU8(v), w))
+	case "nu16":
+		return fmtExpr(expr.NewConstUint(vNU16(v), w))
+	case "nu32":
+		return fmtExpr(expr.NewConstUint(vNU32(v), w))
+	case "nu64":
+		return fmtExpr(expr.NewConstUint(vNU64(v), w))
 	}
 	panic(parseError("bad type"))
 }
@@ -317,6 +337,14 @@ func opConstInt(t *tokens) string {
 		return fmtExpr(expr.NewConstInt(int32(v), w))
 	case "i64":
 		return fmtExpr(expr.NewConstInt(int64(v), w))
+	case "ni8":
+		return fmtExpr(expr.NewConstInt(vNI8(v), w))
+	case "ni16":
+		return fmtExpr(expr.NewConstInt(vNI16(v), w))
+	case "ni32":
+		return fmtExpr(expr.NewConstInt(vNI32(v), w))
+	case "ni64":
+		return fmtExpr(expr.NewConstInt(vNI64(v), w))
 	}
 	panic(parseError("bad type"))
 }
@@ -336,6 +364,14 @@ func opConstFromUint(t *tokens) string {
 		return fmtExpr(expr.ConstFromUint(uint32(v)))
 	case "u64":
 		return fmtExpr(expr.ConstFromUint(uint64(v)))
+	case "nu8":
+		return fmtExpr(expr.ConstFromUint(vNU8(v)))
+	case "nu16":
+		return fmtExpr(expr.ConstFromUint(vNU16(v)))
+	case "nu32":
+		return fmtExpr(expr.ConstFromUint(vNU32(v)))
+	case "nu64":
+		return fmtExpr(expr.ConstFromUint(vNU64(v)))
 	}
 	panic(parseError("bad type"))
 }
@@ -355,6 +391,14 @@ func opConstFromInt(t *tokens) string {
 		return fmtExpr(expr.ConstFromInt(int32(v)))
 	case "i64":
 		return fmtExpr(expr.ConstFromInt(int64(v)))
+	case "ni8":
+		return fmtExpr(expr.ConstFromInt(vNI8(v)))
+	case "ni16":
+		return fmtExpr(expr.ConstFromInt(vNI16(v)))
+	case "ni32":
+		return fmtExpr(expr.ConstFromInt(vNI32(v)))
+	case "ni64":
+		return fmtExpr(expr.ConstFromInt(vNI64(v)))
 	}
 	panic(parseError("bad type"))
 }
@@ -379,6 +423,18 @@ func opToUint(t *tokens) string {
 		v, fits = uint64(x), f
 	case "u64":
 		x, f := expr.ConstUint[uint64](c)
+		v, fits = uint64(x), f
+	case "nu8":
+		x, f := expr.ConstUint[vNU8](c)
+		v, fits = uint64(x), f
+	case "nu16":
+		x, f := expr.ConstUint[vNU16](c)
+		v, fits = uint64(x), f
+	case "nu32":
+		x, f := expr.ConstUint[vNU32](c)
+		v, fits = uint64(x), f
+	case "nu64":
+		x, f := expr.ConstUint[vNU64](c)
 		v, fits = uint64(x), f
 	default:
 		panic(parseError("bad type"))
